@@ -332,6 +332,9 @@ class MenuConfigState:
 
     def load_config(self) -> Tuple[bool, str]:
         msg = self.kconf.load_config()
+        # The loaded values decide which rows are visible: the list computed in __post_init__ is stale now.
+        self.shown = self.shown_nodes(self.cur_menu)
+        self.sel_node_i = 0
         if not os.path.exists(self.conf_filename):
             return True, msg
         return self.needs_save(), msg
